@@ -311,7 +311,32 @@ fn check_declared(f: &AFile, s: &ConfigState, r: &mut ImplRun) {
                 x.get("maxflows").and_then(|v| v.parse::<u32>().ok()).unwrap_or(0)
             ),
             "tcp" => format!("tcp:{addr}:act={}:ft={}:bt={}:ct={}:ep={}", f.activate as u8, t("ft", "gft", 60), t("bt", "gbt", 30), t("ct", "gct", 3), ep as u8),
-            p => format!("{p}:{addr}:act={}:ft={}:bt={}:ct={}:rt={}:ep={}:sticky={}", f.activate as u8, t("ft", "gft", 60), t("bt", "gbt", 30), t("ct", "gct", 3), t("rt", "grt", 10), ep as u8, x.get("sticky").cloned().unwrap_or_else(|| "SOZUBALANCEID".into())),
+            p => {
+                // documented: legacy answer_NNN files first, the `answers` map wins on collision,
+                // "file://" values are read, empty values are skipped
+                let mut ans: BTreeMap<String, String> = BTreeMap::new();
+                let read = |a: &str| std::fs::read_to_string(format!("{ASSETS}/{a}")).unwrap_or_default();
+                if x.contains_key("a404") {
+                    ans.insert("404".into(), read("README.md"));
+                }
+                if let Some(spec) = x.get("ans") {
+                    for e in spec.split('+') {
+                        if let Some((code, v)) = e.split_once('=') {
+                            match v.split_once('~') {
+                                Some(("L", t)) => {
+                                    ans.insert(code.into(), t.to_string());
+                                }
+                                Some(("F", a)) => {
+                                    ans.insert(code.into(), read(a));
+                                }
+                                _ => {}
+                            }
+                        }
+                    }
+                }
+                let ans_fp: Vec<String> = ans.iter().map(|(k, v)| format!("{k}#{}#{}", v.len(), v.bytes().fold(0u32, |a, b| a.wrapping_mul(31).wrapping_add(b as u32)))).collect();
+                format!("{p}:{addr}:act={}:ft={}:bt={}:ct={}:rt={}:ep={}:sticky={}:answers={:?}", f.activate as u8, t("ft", "gft", 60), t("bt", "gbt", 30), t("ct", "gct", 3), t("rt", "grt", 10), ep as u8, x.get("sticky").cloned().unwrap_or_else(|| "SOZUBALANCEID".into()), ans_fp)
+            }
         }
     };
     for l in &f.listeners {
@@ -329,10 +354,10 @@ fn check_declared(f: &AFile, s: &ConfigState, r: &mut ImplRun) {
     }
     let mut got_l = vec![];
     for (a, x) in &s.http_listeners {
-        got_l.push(format!("http:{a}:act={}:ft={}:bt={}:ct={}:rt={}:ep={}:sticky={}", x.active as u8, x.front_timeout, x.back_timeout, x.connect_timeout, x.request_timeout, x.expect_proxy as u8, x.sticky_name));
+        got_l.push(format!("http:{a}:act={}:ft={}:bt={}:ct={}:rt={}:ep={}:sticky={}:answers={:?}", x.active as u8, x.front_timeout, x.back_timeout, x.connect_timeout, x.request_timeout, x.expect_proxy as u8, x.sticky_name, x.answers.iter().map(|(k, v)| format!("{k}#{}#{}", v.len(), v.bytes().fold(0u32, |a, b| a.wrapping_mul(31).wrapping_add(b as u32)))).collect::<Vec<_>>()));
     }
     for (a, x) in &s.https_listeners {
-        got_l.push(format!("https:{a}:act={}:ft={}:bt={}:ct={}:rt={}:ep={}:sticky={}", x.active as u8, x.front_timeout, x.back_timeout, x.connect_timeout, x.request_timeout, x.expect_proxy as u8, x.sticky_name));
+        got_l.push(format!("https:{a}:act={}:ft={}:bt={}:ct={}:rt={}:ep={}:sticky={}:answers={:?}", x.active as u8, x.front_timeout, x.back_timeout, x.connect_timeout, x.request_timeout, x.expect_proxy as u8, x.sticky_name, x.answers.iter().map(|(k, v)| format!("{k}#{}#{}", v.len(), v.bytes().fold(0u32, |a, b| a.wrapping_mul(31).wrapping_add(b as u32)))).collect::<Vec<_>>()));
     }
     for (a, x) in &s.tcp_listeners {
         got_l.push(format!("tcp:{a}:act={}:ft={}:bt={}:ct={}:ep={}", x.active as u8, x.front_timeout, x.back_timeout, x.connect_timeout, x.expect_proxy as u8));
